@@ -63,6 +63,9 @@ class Network:
         self.held: list[Wire] = []
 
     def deliver(self, wire: Wire) -> tuple[int, str, bytes]:
+        # order of ARRIVAL at the addressee (the log is in the order in which sending began)
+        self.n_delivered = getattr(self, 'n_delivered', 0) + 1
+        wire.dseq = self.n_delivered
         server = self.servers.get(wire.dst)
         if server is None:
             raise ConnectionRefusedError(f'no server at {wire.dst}')
